@@ -406,32 +406,6 @@ func runC03(s C03Scenario) pbt.Outcome {
 	return out
 }
 
-func fileSize(p string) int64 {
-	fi, err := os.Stat(p)
-	if err != nil {
-		return -1
-	}
-	return fi.Size()
-}
-
-func diffKeys(got, want map[string][]byte) string {
-	for k := range got {
-		if _, ok := want[k]; !ok {
-			return fmt.Sprintf("unexpected key %s", shortKey(k))
-		}
-	}
-	for k, v := range want {
-		g, ok := got[k]
-		if !ok {
-			return fmt.Sprintf("missing key %s", shortKey(k))
-		}
-		if string(g) != string(v) {
-			return fmt.Sprintf("key %s has another version", shortKey(k))
-		}
-	}
-	return ""
-}
-
 const c03Rule = "histories of 100..420 (one in six: 3..90) writes/deletes over ≤ 8 keys through the chronicler (block sizes 64/1024/16384, thresholds 0.1/0.3/0.5, server construction, " +
 	"V3 or hand-built legacy V2 start) × compaction entry point {inline on Write, on Close, Load self-heal, ForceCompaction, Compactor.Compact/ForceCompact/CompactIfNeeded, " +
 	"CompactFromIndex, CLI compactSwamp} × pre-existing temp file {absent, empty, short, random, valid file with other keys, torn valid}; oracle: live state and name identical " +
